@@ -90,6 +90,11 @@ CHECKS["C02"] = ("exploration",
     "Sources: in-memory dict, dict with non-sliceable (tdms-like) columns, RTDCWriter files, files with short features, basin-backed files (unmapped/mapped), the 7 tdms fixtures; hierarchy depth 0-2; selections empty/full/single/straddling the export chunk size; export.hdf5 with feature subsets incl. duplicates / all / None, logs, tables, basins, skip_checks, prefixes, compression, path variants; export.tsv. Oracles: exported feature set, per-feature event count, exact NaN-aware values for every feature kind, stored dtypes, metadata incl. user section with only the documented changes, logs/tables, source filter untouched, TSV cells within the exact bound of %.10e. Exploration, not proof.",
     "Expected content is computed from the generated arrays, never read through dclab (tdms: a second sequentially read instance); the selection itself is taken from ds.filter.all (C03's subject); stored basin definitions are C07's subject.",
     "DESIGN.md §5 C02, notes/C02.md")
+CHECKS["C07"] = ("exploration",
+    "history-driven generation (Hypothesis) of programs of file-producing steps (store_basin referrers, filtered basin exports from files/children/grandchildren, rtdc_copy, directory moves) + from-scratch reference model that composes the index maps with numpy.take",
+    "Generated origins (up to 6 of 11 feature kinds incl. image, mask, contour, trace, float32 images; optional internal basin) and programs of 1-5 steps, each using any earlier file as source (up to 4 basin hops): referrers with unmapped/mapped basins (sorted, unsorted, repeating, permuted, superset, chunk-crossing, length-1 maps; feature restriction; own copies of basin features; absolute/relative locations), export.hdf5(basins=True) from files, hierarchy children and grandchildren (filtered or not, with/without stored features), rtdc_copy, and moving the whole directory tree. Every produced file is re-opened and every feature compared on every access route (integer incl. negative, stepped slice, boolean mask, [:], np.asarray) with the model; features_basin, membership, innate-ness, len, shape. Exact comparisons. Exploration, not proof.",
+    "Only file/hdf5 and internal basins (remote formats: C14/C19); when own copies upstream make two basins disagree either is accepted (counted); ancillary features derived from basin data are not compared.",
+    "DESIGN.md §5 C07, notes/C07.md")
 NOT_APPLICABLE = {}
 
 def main():
